@@ -405,7 +405,7 @@ class AtLeast(puan.Proposition):
                             maz.compose(
                                 len,
                                 set,
-                                functools.partial(map, hash),
+                                functools.partial(map, lambda x: (x.id, x.bounds.as_tuple())),
                                 itertools.chain.from_iterable,
                                 maz.fnmap(
                                     functools.partial(
